@@ -18,7 +18,7 @@ BIN_CFGS = [(2, 0.0, 2.0), (4, -1.0, 1.0), (3, 0.0, 3.0), (1, -1.0, 1.0), (8, -4
 SPARSE_CFGS = [(1.0, 0.0), (0.5, -0.25), (2.0, 1.0), (0.1, 0.0), (1 / 3, 0.05), (0.7, -0.35), (0.3, 0.0), (0.3, 0.1),
                (1e-3, 5.0), (1e6, -0.5), (0.01, 0.0), (3.0, -1.5)]
 CENTRAL_CFGS = [[0.0, 1.0, 3.0], [-1.0, 1.0], [-0.1, 0.2, 0.7], [1 / 3, 2 / 3, 1.0, 2.0], [0.0, 0.1, 0.3, 0.6, 1.0],
-                [-1e6, 0.0, 1e6]]
+                [-1e6, 0.0, 1e6], [3.0, 0.0, 1.0]]
 IRR_CFGS = [[0.0, 1.0], [-1.0, 0.5, 2.0], [0.1, 0.2, 0.3], [1 / 3, 2 / 3], [0.0], [-0.7, -0.1, 0.1, 0.7, 1e6]]
 
 
